@@ -74,6 +74,20 @@ def call_external(I, name, args, kwargs, node, frame):
     run = I.run
     if name.split(".")[0] in ("hashlib", "uuid", "json", "re", "ast", "random", "statistics") or name in ("math.exp", "math.log", "math.log2", "math.log10", "math.tanh", "math.sin", "math.cos"):
         run.externals = getattr(run, "externals", 0) + 1      # modelled by an assumed contract, not by its value: such a path is not cross-checked against CPython
+    if name.startswith("operator."):
+        import ast as _ast
+        op = name.split(".", 1)[1]
+        bin_ = {"add": _ast.Add, "sub": _ast.Sub, "mul": _ast.Mult, "truediv": _ast.Div, "floordiv": _ast.FloorDiv, "mod": _ast.Mod, "pow": _ast.Pow}
+        cmp_ = {"eq": _ast.Eq, "ne": _ast.NotEq, "lt": _ast.Lt, "le": _ast.LtE, "gt": _ast.Gt, "ge": _ast.GtE}
+        if op in bin_ and len(args) == 2:
+            return I.binop(bin_[op](), args[0], args[1])
+        if op in cmp_ and len(args) == 2:
+            return VBool(I.compare(cmp_[op](), args[0], args[1]))
+        if op in ("neg", "pos") and len(args) == 1:
+            return I.unary(_ast.USub() if op == "neg" else _ast.UAdd(), args[0])
+        if op == "not_" and len(args) == 1:
+            return VBool(z3.Not(I.truthy(args[0])))
+        raise E.Unsupported(f"operator.{op}")
     if name in ("time.time", "time.monotonic", "time.perf_counter"):
         v = run.now(None)
         return VReal(v.t)
@@ -356,6 +370,14 @@ def call_builtin(I, name, args, kwargs, node, frame):
     if name == "zip":
         ls = [I.iterate_concrete(a) for a in args]
         return I.new_list([VTuple(t) for t in zip(*ls)])
+    if name == "next" and args and isinstance(args[0], VRef) and args[0].kind == "list" and run.rec(args[0].oid).concrete:
+        # next() on a generator expression the engine has already materialised (its element expressions have no effects): the first element
+        items = run.rec(args[0].oid).items
+        if items:
+            return items[0]
+        if len(args) > 1:
+            return args[1]
+        raise E.PyExc(VExc("StopIteration"), "next() on an exhausted generator")
     if name == "reversed":
         try:
             return I.new_list(list(reversed(I.iterate_concrete(args[0]))))
@@ -397,6 +419,11 @@ def call_builtin(I, name, args, kwargs, node, frame):
         v = args[0]
         if isinstance(v, VRef) and v.kind == "obj":
             ci = I.repo.find_class(run.rec(v.oid).cls)
+            if ci is None:
+                import ast as _ast
+                if isinstance(getattr(_ast, run.rec(v.oid).cls, None), type):
+                    return VModule("ast." + run.rec(v.oid).cls)
+                raise E.Unsupported(f"type() of an object of unknown class {run.rec(v.oid).cls}")
             return VClass(ci.name, ci)
         if isinstance(v, VExc):
             return VExcClass(v.cls)
